@@ -50,6 +50,7 @@ func pairModel(g samGroup, ref string) (pr pairRows, ok bool) {
 		owner[i] = -1
 	}
 	carriers := make([][]int, L+1) // the records that carry the insertion at slot p
+	runRec := make([]int, L+1)     // 1 + the record whose run of I operations at slot p was taken last
 	type span struct{ a, b int } // reference positions (1-based inclusive) a record spans, 0 if none
 	spans := make([]span, len(g.recs))
 	for ri, rec := range g.recs {
@@ -75,9 +76,25 @@ func pairModel(g samGroup, ref string) (pr pairRows, ok bool) {
 				if qi+op.Len > len(rec.Seq) || p > L {
 					return pr, false
 				}
+				if runRec[p] == ri+1 {
+					qi += op.Len // a later I operation of a run this record has already contributed whole
+					break
+				}
+				runRec[p] = ri + 1
 				s := rec.Seq[qi : qi+op.Len]
+				// a record may write its insertion at p as several I operations (with padding between them)
+				for oj := oi + 1; oj < nops; oj++ {
+					if o2 := rec.Cigar[oj]; o2.Op == 'I' {
+						if qi+len(s)+o2.Len > len(rec.Seq) {
+							return pr, false
+						}
+						s += rec.Seq[qi+len(s) : qi+len(s)+o2.Len]
+					} else if o2.Op != 'P' {
+						break
+					}
+				}
 				if owner[p] >= 0 {
-					if owner[p] == ri || ins[p] != s {
+					if ins[p] != s {
 						return pr, false // two different insertions at one anchor: outside "non-conflicting"
 					}
 					// the same insertion carried by a second, overlapping record: still one insertion of the query
@@ -86,7 +103,7 @@ func pairModel(g samGroup, ref string) (pr pairRows, ok bool) {
 					qi += op.Len
 					break
 				}
-				ins[p] += s
+				ins[p] = s
 				owner[p] = ri
 				carriers[p] = append(carriers[p], ri)
 				qi += op.Len
